@@ -607,8 +607,9 @@ func checkSortMap(c *Ctx) {
 	fi := c.Func("R04d", pSqlx, "", "sortMap")
 	if fi != nil {
 		info := fi.Info()
-		// the visit closure
+		// the recursive visit: a closure assigned in sortMap, or a package-local function/method that calls itself
 		var visit *ast.FuncLit
+		var visitFn *types.Func
 		ast.Inspect(fi.Decl.Body, func(m ast.Node) bool {
 			if as, ok := m.(*ast.AssignStmt); ok && len(as.Rhs) == 1 {
 				if fl, ok := as.Rhs[0].(*ast.FuncLit); ok && visit == nil {
@@ -618,7 +619,26 @@ func checkSortMap(c *Ctx) {
 			return true
 		})
 		if visit == nil {
-			c.Unresolved("R04d", "sortMap: visit closure")
+			for _, call := range callsIn(fi.Decl.Body, true) {
+				fn := calleeOf(info, call)
+				if fn == nil || fn.Pkg() == nil || fn.Pkg().Path() != pSqlx {
+					continue
+				}
+				cf := c.FuncInfoOf(fn)
+				if cf == nil || cf.Decl.Body == nil {
+					continue
+				}
+				for _, inner := range callsIn(cf.Decl.Body, true) {
+					if calleeOf(cf.Info(), inner) == fn {
+						visitFn = fn
+						visit = &ast.FuncLit{Type: cf.Decl.Type, Body: cf.Decl.Body}
+						info = cf.Info()
+					}
+				}
+			}
+		}
+		if visit == nil {
+			c.Unresolved("R04d", "sortMap: the recursive visit (closure or package-local function)")
 		} else {
 			f := newFlow(info, visit.Body)
 			isMark := func(n ast.Node) bool { // progress[name] = true
@@ -636,6 +656,13 @@ func checkSortMap(c *Ctx) {
 			isRecurse := func(n ast.Node) bool {
 				hit := false
 				walkShallow(n, func(m ast.Node) bool {
+					if call, ok := m.(*ast.CallExpr); ok && visitFn != nil {
+						// named visit: a call of that function (from its own body or from sortMap)
+						if calleeOf(info, call) == visitFn || calleeOf(fi.Info(), call) == visitFn {
+							hit = true
+						}
+						return true
+					}
 					if call, ok := m.(*ast.CallExpr); ok {
 						if id, ok := call.Fun.(*ast.Ident); ok && id.Name != "" && calleeOf(info, call) == nil && builtinName(info, call) == "" {
 							if _, isSig := info.TypeOf(id).Underlying().(*types.Signature); isSig {
@@ -688,61 +715,67 @@ func checkSortMap(c *Ctx) {
 			c.Check("R04d", "sortMap.visit|meeting an in-progress node reports a cycle", visit.Pos(), cyc, "visiting a node that is in progress must report a cycle")
 			// every node is a root: the loops that call visit run to completion unless a cycle is reported
 			nLoops := 0
-			ast.Inspect(fi.Decl.Body, func(m ast.Node) bool {
-				rs, isRange := m.(*ast.RangeStmt)
-				if !isRange {
-					return true
-				}
-				callsVisit := false
-				for _, st := range rs.Body.List {
-					walkShallow(st, func(k ast.Node) bool {
-						if isRecurse(k) {
+			loopBodies := []ast.Node{fi.Decl.Body}
+			if visitFn != nil {
+				loopBodies = append(loopBodies, visit.Body)
+			}
+			for _, lb := range loopBodies {
+				ast.Inspect(lb, func(m ast.Node) bool {
+					rs, isRange := m.(*ast.RangeStmt)
+					if !isRange {
+						return true
+					}
+					callsVisit := false
+					for _, st := range rs.Body.List {
+						walkShallow(st, func(k ast.Node) bool {
+							if isRecurse(k) {
+								callsVisit = true
+							}
+							return true
+						})
+						if ifs, ok := st.(*ast.IfStmt); ok && isRecurse(ifs.Cond) {
 							callsVisit = true
 						}
-						return true
-					})
-					if ifs, ok := st.(*ast.IfStmt); ok && isRecurse(ifs.Cond) {
-						callsVisit = true
 					}
-				}
-				if !callsVisit {
-					return true
-				}
-				nLoops++
-				where := "root loop"
-				if rs.Pos() > visit.Pos() && rs.End() < visit.End() {
-					where = "dependency loop"
-				}
-				early := ""
-				var scan func(n ast.Node, depth int)
-				scan = func(n ast.Node, depth int) {
-					ast.Inspect(n, func(k ast.Node) bool {
-						switch x := k.(type) {
-						case *ast.FuncLit:
-							return false
-						case *ast.ForStmt, *ast.RangeStmt, *ast.SwitchStmt, *ast.TypeSwitchStmt, *ast.SelectStmt:
-							if k != n {
-								// break/continue inside a nested breakable statement: only labelled ones or `continue` in switch leave our loop
-								ast.Inspect(k, func(j ast.Node) bool {
-									if b, ok := j.(*ast.BranchStmt); ok && (b.Label != nil || b.Tok == token.CONTINUE && !isLoop(k)) {
-										early = c.pos(b.Pos()) + " " + b.Tok.String()
-									}
-									return true
-								})
-								return false
-							}
-						case *ast.BranchStmt:
-							if x.Tok == token.BREAK || x.Tok == token.CONTINUE || x.Tok == token.GOTO {
-								early = c.pos(x.Pos()) + " " + x.Tok.String()
-							}
-						}
+					if !callsVisit {
 						return true
-					})
-				}
-				scan(rs.Body, 0)
-				c.Check("R04d", "sortMap|"+where+" visits every node", rs.Pos(), early == "", "the %s of sortMap can be left early (%s): nodes after that point are never visited, so a cycle among them is not detected and they get no position", where, early)
-				return true
-			})
+					}
+					nLoops++
+					where := "root loop"
+					if rs.Pos() > visit.Body.Pos() && rs.End() < visit.Body.End() {
+						where = "dependency loop"
+					}
+					early := ""
+					var scan func(n ast.Node, depth int)
+					scan = func(n ast.Node, depth int) {
+						ast.Inspect(n, func(k ast.Node) bool {
+							switch x := k.(type) {
+							case *ast.FuncLit:
+								return false
+							case *ast.ForStmt, *ast.RangeStmt, *ast.SwitchStmt, *ast.TypeSwitchStmt, *ast.SelectStmt:
+								if k != n {
+									// break/continue inside a nested breakable statement: only labelled ones or `continue` in switch leave our loop
+									ast.Inspect(k, func(j ast.Node) bool {
+										if b, ok := j.(*ast.BranchStmt); ok && (b.Label != nil || b.Tok == token.CONTINUE && !isLoop(k)) {
+											early = c.pos(b.Pos()) + " " + b.Tok.String()
+										}
+										return true
+									})
+									return false
+								}
+							case *ast.BranchStmt:
+								if x.Tok == token.BREAK || x.Tok == token.CONTINUE || x.Tok == token.GOTO {
+									early = c.pos(x.Pos()) + " " + x.Tok.String()
+								}
+							}
+							return true
+						})
+					}
+					scan(rs.Body, 0)
+					c.Check("R04d", "sortMap|"+where+" visits every node", rs.Pos(), early == "", "the %s of sortMap can be left early (%s): nodes after that point are never visited, so a cycle among them is not detected and they get no position", where, early)
+					return true
+				})
+			}
 			if nLoops < 2 {
 				c.Unresolved("R04d", "sortMap: the two loops that call visit (roots, dependencies)")
 			}
